@@ -3642,6 +3642,11 @@ namespace detail {
             bool done = false;
             while (p_ < input_end_ && !done)
             {
+                if (JSONCONS_UNLIKELY(state_stack.empty())) // every state was popped but input remains
+                {
+                    ec = jmespath_errc::syntax_error;
+                    return jmespath_expression{};
+                }
                 switch (state_stack.back())
                 {
                     case expr_state::start: 
